@@ -3,7 +3,9 @@
 Grammar (EBNF; everything else in a source file is skipped at item level with balanced brackets):
 
   file     := item*
-  item     := attr* vis? ( 'struct' IDENT generics? ( '{' field,* '}' | ';' | '(' (vis? type),* ')' ';' )
+  item     := 'enumstr' '!' '(' attr* IDENT '{' (attr* IDENT ':' STRING),* '}' ')' ';'      -- a field-less enum with its texts (layout21utils)
+            | 'trait' IDENT generics? .. '{' (attr* fn | other)* '}'                          -- read like `impl IDENT`
+            | attr* vis? ( 'struct' IDENT generics? ( '{' field,* '}' | ';' | '(' (vis? type),* ')' ';' )
                          | 'enum' IDENT generics? '{' (attr* IDENT ( '(' type,* ')' | '{' field,* '}' )? ('=' expr)?),* '}'
                          | 'impl' generics? type ('for' type)? '{' (attr* vis? fn | 'type' IDENT '=' type ';' | other)* '}'
                          | 'type' IDENT '=' type ';'
@@ -37,6 +39,8 @@ Grammar (EBNF; everything else in a source file is skipped at item level with ba
   postfix  := primary ( '.' IDENT ('::' '<' ... '>')? ('(' expr,* ')')? | '.' INT | '[' expr ('..' expr)? ']' | '(' expr,* ')' | '?' )*
   primary  := INT | FLOAT | STRING | CHAR | 'true' | 'false' | path | path '{' (IDENT (':' expr)?),* ('..' expr)? '}'     -- not in expr0
             | '(' expr,* ')' | '[' expr,* ']' | '[' expr ';' INT ']' | block | ifexpr | matchexpr | IDENT '!' ( '(' ... ')' | '[' expr,* ']' )
+            | ('format' | 'format_f' | 'format_args' | 'format_args_f') '!' '(' STRING (',' expr)* ')'      -- the `{expr}` holes of the template are parsed by the translator
+            | '<' type '>' '::' IDENT
             | 'return' expr? | 'break' | 'continue' | 'move'? '|' pat,* '|' expr
   ifexpr   := 'if' ('let' pat '=')? expr0 block ('else' (ifexpr | block))?
   matchexpr:= 'match' expr0 '{' ( pat ('if' expr)? '=>' (expr ',' | block ','?) )* '}'
@@ -342,6 +346,8 @@ class Parser:
                 self.parse_impl(out)
             elif self.at("trait") and self.peek(1).kind == "ident":
                 self.parse_trait(out)
+            elif self.at("enumstr") and self.at("!", 1) and self.at("(", 2):
+                self.parse_enumstr(out)
             elif self.at("fn"):
                 f = self.parse_fn(None)
                 out["fns"].setdefault(f.name, f)
@@ -537,6 +543,33 @@ class Parser:
             # kept in "allfns" (overloaded operator impls: `impl Mul<Int> for T` and `impl Mul<usize> for T`)
             out["fns"].setdefault(f.name, f)
             out["allfns"].append(f)
+
+    def parse_enumstr(self, out):
+        """`enumstr!( Name { Variant: "TEXT", .. } );` (layout21utils): a field-less enum with Clone, Copy, PartialEq, Eq, whose `Display` /
+        `to_str` give the text and whose `from_str` reads it back; the texts are kept in out["enumstr"]"""
+        self.i += 3
+        self.skip_attrs_vis()
+        name = self.ident()
+        self.eat("{")
+        variants, texts = [], []
+        while not self.at("}"):
+            self.skip_attrs_vis()
+            vn = self.ident()
+            self.eat(":")
+            t = self.peek()
+            if t.kind != "str":
+                self.err("enumstr!: expected a string literal")
+            self.i += 1
+            variants.append((vn, "unit", []))
+            texts.append((vn, t.val[1:-1]))
+            if not self.accept(","):
+                break
+        self.eat("}")
+        self.eat(")")
+        self.accept(";")
+        out["enums"][name] = variants
+        out["meta"][name] = {"generics": [], "derives": ["Clone", "Copy", "PartialEq", "Eq", "Display"], "tuple": False}
+        out.setdefault("enumstr", {})[name] = texts
 
     def parse_trait(self, out):
         """`trait T { fn .. }`: its methods (required ones have no body, provided ones have one) are recorded like those of
@@ -909,7 +942,8 @@ class Parser:
             if self.at(op):
                 self.i += 1
                 rhs = self.parse_expr()
-                self.eat(";")
+                if not self.at("}"):          # (an assignment may be the last thing in a block, without `;`)
+                    self.eat(";")
                 return N("assign", t.line, lhs=e, op=op, rhs=rhs)
         if self.accept(";"):
             return N("exprstmt", t.line, e=e, semi=True)
@@ -1083,12 +1117,73 @@ class Parser:
                 e = N("index", t.line, e=e, idx=idx)
             elif self.at("(") and e.kind == "path":
                 args = self.p_args()
-                e = N("call", t.line, path=e.segs, args=args)
+                e = N("call", t.line, path=e.segs, args=args, targs=getattr(e, "targs", None))
             elif self.at("?"):
                 self.i += 1
                 e = N("try", t.line, e=e)
             else:
                 return e
+    def fmt_pieces(self, tmpl, fargs, tok):
+        """the pieces of a format template in order: ("lit", text) / ("hole", expression); `{}` takes the next positional argument,
+        `{expr}` is parsed like the sources"""
+        body = tmpl[1:-1] if tmpl.startswith('"') else None
+        if body is None:
+            self.err("a raw / byte string as a format template is outside the subset", tok)
+        text, i = "", 0
+        while i < len(body):
+            c = body[i]
+            if c == "\\":
+                n = body[i + 1:i + 2]
+                if n == "n":
+                    text += "\n"
+                elif n == "t":
+                    text += "\t"
+                elif n in ('"', "\\", "'"):
+                    text += n
+                else:
+                    self.err("the escape `\\%s` in a format template is outside the subset" % n, tok)
+                i += 2
+                continue
+            text += c; i += 1
+        pieces, i, lit, npos = [], 0, "", 0
+        while i < len(text):
+            c = text[i]
+            if text[i:i + 2] == "{{":
+                lit += "{"; i += 2; continue
+            if text[i:i + 2] == "}}":
+                lit += "}"; i += 2; continue
+            if c == "{":
+                j = text.find("}", i)
+                if j < 0:
+                    self.err("unbalanced `{` in a format template", tok)
+                hole = text[i + 1:j].strip()
+                if ":" in hole:
+                    self.err("a format specification (`{:..}`) is outside the subset", tok)
+                if lit:
+                    pieces.append(("lit", lit)); lit = ""
+                if hole == "":
+                    if npos >= len(fargs):
+                        self.err("more `{}` holes than arguments in a format template", tok)
+                    pieces.append(("hole", fargs[npos])); npos += 1
+                else:
+                    sub = Parser(tokenize(hole, self.fname) , self.fname)
+                    for t_ in sub.t:
+                        t_.line = tok.line
+                    node = sub.parse_expr()
+                    if sub.peek().kind != "eof":
+                        self.err("the hole `{%s}` of a format template is not one expression" % hole, tok)
+                    pieces.append(("hole", node))
+                i = j + 1
+                continue
+            if c == "}":
+                self.err("unbalanced `}` in a format template", tok)
+            lit += c; i += 1
+        if lit:
+            pieces.append(("lit", lit))
+        if npos != len(fargs):
+            self.err("more arguments than `{}` holes in a format template", tok)
+        return pieces
+
     def p_primary(self, ns):
         t = self.peek()
         if t.kind == "int":
@@ -1165,14 +1260,49 @@ class Parser:
             if not (self.at(";") or self.at("}") or self.at(")") or self.at(",")):
                 e = self.parse_expr()
             return N("return", t.line, e=e)
+        if self.at("<"):
+            # `<Vec<String>>::new()`: a path that starts with a type in angle brackets
+            save = self.i
+            self.i += 1
+            ty = self.parse_type()
+            if self.half:
+                self.half = False
+                self.i += 1          # the `>>` that closed the inner list and this bracket
+            else:
+                self.eat(">")
+            self.eat("::")
+            meth = self.ident()
+            if ty[0] == "vec":
+                return N("path", t.line, segs=["Vec", meth], targs=[ty[1]])
+            if ty[0] in ("named", "gen"):
+                return N("path", t.line, segs=[ty[1], meth], targs=None)
+            self.i = save
+            self.err("a path that starts with this type in angle brackets is outside the subset")
         if self.at("while") or self.at("loop"):
             self.err("`%s` used as an expression is outside the subset (only as a statement)" % t.val)
         if t.kind == "ident" and (t.val not in KEYWORDS or t.val in ("crate", "super")):
             segs = [t.val]; self.i += 1
+            targs = None
             while self.at("::"):
                 self.i += 1
                 if self.at("<"):
-                    self.skip_generics()        # turbofish: the type arguments are not needed
+                    # turbofish: the type arguments are kept when they are types of the subset (`Vec::<T>::new()`)
+                    save = self.i
+                    try:
+                        self.i += 1
+                        ta = []
+                        while not self.at(">"):
+                            ta.append(self.parse_type())
+                            if not self.accept(","):
+                                break
+                        self.eat(">")
+                        if self.half:
+                            raise Unsupported("nested generic arguments in a turbofish")
+                        targs = ta
+                    except Unsupported:
+                        self.i = save
+                        self.half = False
+                        self.skip_generics()
                     continue
                 segs.append(self.ident())
             if len(segs) >= 2 and segs[0] in KEEP_QUAL:
@@ -1189,6 +1319,22 @@ class Parser:
                             break
                     self.eat("]")
                     return N("veclit", t.line, es=es)
+                if segs[-1] in ("format", "format_f", "format_args", "format_args_f") and self.at("(") and self.peek(1).kind == "str":
+                    # a formatting macro: the template and the positional arguments are kept
+                    self.i += 1
+                    tmpl = self.peek().val
+                    self.i += 1
+                    fargs = []
+                    while self.accept(","):
+                        if self.at(")"):
+                            break
+                        fargs.append(self.parse_expr())
+                    self.eat(")")
+                    try:
+                        pieces, why = self.fmt_pieces(tmpl, fargs, t), None
+                    except Unsupported as ex:
+                        pieces, why = None, str(ex)       # (an error only where the template is translated)
+                    return N("fmt", t.line, name=segs[-1], template=tmpl, args=fargs, pieces=pieces, why=why)
                 if self.at("(") or self.at("[") or self.at("{"):
                     self.skip_balanced()
                 return N("macro", t.line, name=segs[-1])
@@ -1213,7 +1359,7 @@ class Parser:
                         break
                 self.eat("}")
                 return N("structlit", t.line, name=segs[-1], segs=segs, fields=fields, base=base)
-            return N("path", t.line, segs=segs)
+            return N("path", t.line, segs=segs, targs=targs)
         self.err("expression outside the subset")
 
 def type_key(ty):
